@@ -220,10 +220,81 @@ def check_tree(res, case, tree, plain_tree, sens, plain, mask):
         res.violate("C10:non-sensitive-altered", "a secret declared non-sensitive was altered by the mask", case)
 
 
+def nested_stream(ctx, res, n):
+    """the walk that renders configurations held below nested containers (Config._render_nested) against the model's renderNested
+    (Cinco/Config/Nested.lean, theorems in Props/C10b.lean): random nestings of lists, tuples and dicts holding real configurations
+    and plain leaves, the tree a field's to_basic gives for them, masks and the virtual flag; also shapes that do not agree"""
+    import cincoconfig as cc
+    from protocol import enc_tree, dec_tree, canon_tree
+    rng = ctx.rng
+    if not hasattr(cc.Config, "_render_nested"):
+        res.hist["nested:no-such-method"] += 1
+        return
+    tok = cc.Schema()
+    tok.label = cc.StringField()
+    tok.value = cc.StringField(sensitive=True)
+    tok.also = cc.VirtualField(lambda c: "virt-" + (c.label or ""), sensitive=rng.random() < 0.5)
+    owner = cc.Schema()()
+    reqs, pend = [], []
+    for i in range(n):
+        items = []
+
+        def gen(depth):
+            r = rng.random()
+            if depth == 0 or r < 0.35:
+                if rng.random() < 0.6:
+                    c = tok()
+                    c.label = "L%d" % len(items)
+                    c.value = "SECRET%d-%04x" % (len(items), rng.getrandbits(16))
+                    items.append(c)
+                    return c, {"cfg": len(items) - 1}, c.to_tree()
+                leaf = rng.choice([1, "leaf", None, True, 2.5, "SECRETish"])
+                return leaf, {"leaf": enc_tree(leaf)}, leaf
+            if r < 0.75:
+                parts = [gen(depth - 1) for _ in range(rng.randint(0, 3))]
+                held = [p[0] for p in parts]
+                return (tuple(held) if rng.random() < 0.2 else held), {"list": [p[1] for p in parts]}, [p[2] for p in parts]
+            keys = rng.sample(["a", "b", "c", "ops", "dev"], rng.randint(0, 3))
+            parts = [gen(depth - 1) for _ in keys]
+            return {k: p[0] for k, p in zip(keys, parts)}, {"dict": [[k.upper(), p[1]] for k, p in zip(keys, parts)]}, {k.upper(): p[2] for k, p in zip(keys, parts)}
+        held, wire_held, basic = gen(3)
+        kind = "agree"
+        if rng.random() < 0.25:
+            # a rendering that does not have the held value's shape: the walk leaves it as it is
+            kind = "mismatch"
+            basic = rng.choice([basic + [0] if isinstance(basic, list) else [basic], {"x": basic}, "scalar", (basic[:-1] if isinstance(basic, list) and basic else 5)])
+        mask = rng.choice(MASKS + [None])
+        virtual = rng.random() < 0.4
+        try:
+            got = owner._render_nested(held, copy.deepcopy(basic), virtual, mask)
+        except Exception as e:  # noqa
+            res.case(None, kind="nested:raised")            # (a rendering that raises shows nothing: not this property's concern)
+            continue
+        rendered = [[j, enc_tree(c.to_tree(virtual=virtual, sensitive_mask=mask))] for j, c in enumerate(items)]
+        case = {"stream": "nested", "held": wire_held, "mask": mask, "virtual": virtual, "kind": kind}
+        res.case(stable([wire_held, mask, virtual, kind]) if items else None, sample=case if i < 2 else None, kind="nested:%s:%s" % (kind, "mask" if mask is not None else "nomask"))
+        # direct oracle: under a mask no secret of an inner configuration survives the walk when the shapes agree
+        if kind == "agree" and mask is not None:
+            text = json.dumps(got, default=str)
+            for c in items:
+                if c.value in text and c.value != mask:
+                    res.violate("C10:leak-below-nested-container", "a sensitive value of a configuration held below nested containers appears in the masked rendering", case)
+                    break
+        reqs.append({"cmd": "nested.render", "held": wire_held, "basic": enc_tree(basic), "rendered": rendered})
+        pend.append((case, got))
+    replies = ctx.model(reqs)
+    if replies is not None:
+        for (case, got), r in zip(pend, replies):
+            res.traces += 1
+            if "ok" not in r or canon_tree(dec_tree(r["ok"])) != canon_tree(got):
+                res.disagree("C10.nested-render", case, impl=got, model=r)
+
+
 def run(ctx, n_quick=150, n_thorough=5000):
     res = Result()
     P.run_stream(ctx, res, "C10", ctx.n(n_quick, n_thorough), oracle, gen_ops=gen_ops, ops_len=(3, 8), schema_gen=gen_schema)
     marker_stream(ctx, res, ctx.n(8, 200))
+    nested_stream(ctx, res, ctx.n(300, 8000))
     return res
 
 
